@@ -9,6 +9,8 @@
 //!              3–4 replicas, updates produced the way nodes produce them; monotonicity, "never
 //!              failed above an announced incarnation", convergence after full exchange.
 //!  * `manager` the same update streams through GossipMembershipManager::handle_gossip(Sync).
+//!  * `manager_msgs` Sync / Suspect / Alive messages handed to the manager of member m0 itself (its own
+//!               entry arrives through syncs too): incarnations and the logical clock never go down.
 
 use nv_engine::{main_for, CaseCtx, CustomPart, Fail, PropDef, PropPart, Tier};
 use proptest::prelude::*;
@@ -627,6 +629,87 @@ fn manager_check(c: &PermCase, ctx: &mut CaseCtx) -> Result<(), Fail> {
     check_views(&c.updates, &view(&ma), &view(&mb), ctx)
 }
 
+// ---------------------------------------------------------------- manager_msgs
+
+/// One message handed to `GossipMembershipManager::handle_gossip` of member m0.
+#[derive(Clone, Debug, Serialize, Deserialize)]
+enum GMsg {
+    /// Sync from member `sender` carrying these updates (the local member's own entry included:
+    /// peers remember a node's previous life across its restart)
+    Sync { sender: u8, states: Vec<Upd> },
+    Suspect { reporter: u8, suspect: u8, inc: u64 },
+    Alive { node: u8, inc: u64 },
+}
+
+#[derive(Clone, Debug, Serialize, Deserialize)]
+struct MsgCase {
+    msgs: Vec<GMsg>,
+}
+
+fn msg_strategy(_t: Tier) -> impl Strategy<Value = MsgCase> {
+    let m = prop_oneof![
+        5 => (0u8..4, prop::collection::vec(upd_strategy(4, 4, 5), 1..4)).prop_map(|(sender, states)| GMsg::Sync { sender, states }),
+        3 => (1u8..4, 0u8..4, 0u64..4).prop_map(|(reporter, suspect, inc)| GMsg::Suspect { reporter, suspect, inc }),
+        2 => (0u8..4, 0u64..4).prop_map(|(node, inc)| GMsg::Alive { node, inc }),
+    ];
+    prop::collection::vec(m, 1..14).prop_map(|msgs| MsgCase { msgs })
+}
+
+/// The manager is member m0 itself. Whatever peers send (syncs that carry m0's own entry,
+/// suspicions of m0 or of others, refutations), no member's recorded incarnation and the manager's
+/// logical clock may ever go down.
+fn manager_msgs_check(c: &MsgCase, ctx: &mut CaseCtx) -> Result<(), Fail> {
+    // handle_suspect / handle_alive spawn their broadcasts: they need a runtime context (the tasks
+    // are never polled; what is checked is the state the handler leaves behind)
+    let rt = tokio::runtime::Builder::new_current_thread().enable_time().build().map_err(|e| Fail::new("harness", e.to_string()))?;
+    let _enter = rt.enter();
+    let t = Arc::new(MemoryTransport::new(member_id(0)));
+    let m = GossipMembershipManager::new(member_id(0), GossipConfig::default(), t);
+    let mut last_inc: BTreeMap<String, u64> = m.all_states().into_iter().map(|s| (s.node_id.clone(), s.incarnation)).collect();
+    let mut last_clock = m.lamport_time();
+    let mut own_raised = false;
+    for (k, msg) in c.msgs.iter().enumerate() {
+        let (what, gm) = match msg {
+            GMsg::Sync { sender, states } => {
+                let st: Vec<GossipNodeState> = states.iter().map(to_state).collect();
+                if states.iter().any(|u| u.member == 0 && u.inc > 0) {
+                    own_raised = true;
+                }
+                let sender_time = st.iter().map(|s| s.timestamp).max().unwrap_or(0) + k as u64;
+                ("sync", GossipMessage::Sync { sender: member_id(*sender), states: st, sender_time })
+            },
+            GMsg::Suspect { reporter, suspect, inc } => {
+                if *suspect == 0 {
+                    ctx.label(if own_raised { "the local member is suspected after a sync raised its own entry" } else { "the local member is suspected" });
+                    if own_raised {
+                        ctx.set_nontrivial();
+                    }
+                }
+                ("suspect", GossipMessage::Suspect { reporter: member_id(*reporter), suspect: member_id(*suspect), incarnation: *inc })
+            },
+            GMsg::Alive { node, inc } => ("alive", GossipMessage::Alive { node_id: member_id(*node), incarnation: *inc }),
+        };
+        m.handle_gossip(gm);
+        if m.lamport_time() < last_clock {
+            ctx.fail("msgs:clock-decreased", format!("after message {k} ({what}): lamport_time went {last_clock} -> {}", m.lamport_time()))?;
+        }
+        last_clock = m.lamport_time();
+        for st in m.all_states() {
+            if let Some(p) = last_inc.get(&st.node_id) {
+                if st.incarnation < *p {
+                    let who = if st.node_id == member_id(0) { "own" } else { "peer" };
+                    ctx.fail(
+                        format!("msgs:incarnation-decreased:{who}:after-{what}"),
+                        format!("after message {k} ({msg:?}) the recorded incarnation of {} went {p} -> {}", st.node_id, st.incarnation),
+                    )?;
+                }
+            }
+            last_inc.insert(st.node_id.clone(), st.incarnation);
+        }
+    }
+    Ok(())
+}
+
 trait NtExt {
     fn set_nontrivial_if(&mut self, c: bool);
 }
@@ -642,7 +725,7 @@ fn main() {
     main_for(PropDef {
         id: "C17",
         level: "exploration",
-        rule: "perm/manager: a multiset of 2..12 updates over 2-4 members (incarnation 0..3, timestamp 0..4, all healths) delivered to two replicas as different permutations/batchings/repetitions; non-trivial = the multiset has two updates of one member with equal (incarnation,timestamp) and different health, or the two deliveries order two distinct updates of one member differently. small: every multiset of <=3 (quick) / <=4 (thorough) updates over 2 members x inc{0,1} x ts{0,1} x 3 healths against every delivery order (exhaustive). events: histories of <=40 local/gossip events on 3-4 replicas; non-trivial = >=4 event kinds incl. gossip and a local transition after a merge. distinct = distinct generated case (hash of its JSON).",
+        rule: "perm/manager: a multiset of 2..12 updates over 2-4 members (incarnation 0..3, timestamp 0..4, all healths) delivered to two replicas as different permutations/batchings/repetitions; non-trivial = the multiset has two updates of one member with equal (incarnation,timestamp) and different health, or the two deliveries order two distinct updates of one member differently. small: every multiset of <=3 (quick) / <=4 (thorough) updates over 2 members x inc{0,1} x ts{0,1} x 3 healths against every delivery order (exhaustive). events: histories of <=40 local/gossip events on 3-4 replicas; non-trivial = >=4 event kinds incl. gossip and a local transition after a merge. manager_msgs: 1..13 Sync / Suspect / Alive messages (members m0..m3, incarnations 0..3) handed to the manager of member m0; non-trivial = m0 is suspected after a sync carried its own entry at a higher incarnation. distinct = distinct generated case (hash of its JSON).",
         assumptions: vec![
             "view compared = (health, incarnation) per member; updated_at and timestamp are not part of the view",
             "updates in the events part are produced the way nodes produce them (a member announces only its own incarnations)",
@@ -653,6 +736,7 @@ fn main() {
             Box::new(small_part()),
             PropPart::new("events", 40_000, 6_000_000, ev_strategy, ev_check).boxed(),
             PropPart::new("manager", 20_000, 3_000_000, perm_strategy, manager_check).boxed(),
+            PropPart::new("manager_msgs", 40_000, 4_000_000, msg_strategy, manager_msgs_check).boxed(),
         ],
         children: vec![],
     });
